@@ -67,10 +67,20 @@ def gen_history(rng, length):
                     hist.append({"op": "fs", "kind": "shrink", "rel": rel, "by": rng.choice([1, 5, 16384])})
                 else:
                     hist.append({"op": "fs", "kind": "rewrite", "rel": rel, "data": f"r{counter}.{rng.choice([7, 20000])}"})
+        elif r < 0.64:
+            hist.append({"op": "create-abort", "kind": rng.choice(["a3", "a2", "hy", "v2"]), "path": "p",
+                         "out": f"aborted{counter}.torrent", "pl": 16384, "after": rng.choice([1, 2, 3])})
         elif r < 0.7:
-            hist.append({"op": "edit", "meta": rng.choice(metas),
-                         "req": {"comment": rng.choice(["x", "", "y z"]),
-                                 "announce": rng.choice([None, ["http://a/b"], ""])}})
+            op = {"op": "edit", "meta": rng.choice(metas),
+                  "req": {"comment": rng.choice(["x", "", "y z"]),
+                          "announce": rng.choice([None, ["http://a/b"], ""])}}
+            if rng.random() < 0.5:
+                # through the command line: every call names its own fields only
+                op["cli"] = True
+                op["flags"] = rng.choice([[], ["-q"], ["-v"]])
+                op["req"] = rng.choice([{"comment": "c" + str(counter)}, {"announce": ["http://t/" + str(counter)]},
+                                        {"source": "s" + str(counter)}])
+            hist.append(op)
         elif r < 0.8:
             hist.append({"op": "recheck", "meta": rng.choice(metas), "content": rng.choice(["p", "."]),
                          "reuse": rng.random() < 0.5})
